@@ -726,6 +726,13 @@ pub fn eval_box(rt: &tokio::runtime::Runtime, src: &Real, b: &TileBBox) -> BoxEv
 /// `allow_err`: the source is known to fail for some coordinates (fault injection); a failing lookup then
 /// counts as "no tile": the stream must deliver exactly the tiles whose lookup is `Ok(Some)`
 pub fn eval_box_ex(rt: &tokio::runtime::Runtime, src: &Real, b: &TileBBox, allow_err: bool) -> BoxEval {
+	eval_box_opts(rt, src, b, allow_err, true)
+}
+
+/// `check_cover = false`: a `TilesConvertReader` with a requested pyramid advertises the restricted pyramid but serves
+/// every tile of its source by lookup and by stream (the restriction takes effect in the writers, which walk the advertised
+/// pyramid) – for C02 only the agreement of stream and lookups matters there
+pub fn eval_box_opts(rt: &tokio::runtime::Runtime, src: &Real, b: &TileBBox, allow_err: bool, check_cover: bool) -> BoxEval {
 	let stream = catch(|| rt.block_on(async { src.stream(b.clone()).await }));
 	let mut ev = BoxEval { stream, failure: None, n_lookup_hits: 0, n_lookup_errs: 0, n_coords: 0 };
 	let coords: Vec<TileCoord3> = if b.is_empty() { vec![] } else { b.iter_coords().collect() };
@@ -752,7 +759,7 @@ pub fn eval_box_ex(rt: &tokio::runtime::Runtime, src: &Real, b: &TileBBox, allow
 	}
 	ev.n_lookup_hits = expect.len();
 	// the advertised coverage must contain everything that is delivered (by lookups and by the stream)
-	{
+	if check_cover {
 		let pyr = &src.params().bbox_pyramid;
 		let mut outside: Option<(u32, u32, u8)> = expect.keys().find(|k| !pyr.contains_coord(&TileCoord3 { x: k.0, y: k.1, z: k.2 })).copied();
 		if outside.is_none() {
@@ -897,6 +904,15 @@ pub fn run_in_world(rt: &tokio::runtime::Runtime, out: &mut Out, id: &mut Ident,
 		let mut cp = TilesConverterParameters::new_default();
 		cp.flip_y = flip;
 		cp.swap_xy = swap;
+		if rpn.len() > 2 && &rpn[2..3] == "r" {
+			// restricted conversion: only the upper-left quarter of every level (and nothing of the lowest level) is requested
+			let mut pyr = TileBBoxPyramid::new_empty();
+			for z in 1..32u8 {
+				let m = ((1u64 << z) - 1) as u32;
+				pyr.set_level_bbox(TileBBox::new(z, 0, 0, m / 2, m / 2).unwrap());
+			}
+			cp.bbox_pyramid = Some(pyr);
+		}
 		let conv = match catch(|| TilesConvertReader::new_from_reader(rd, cp)) {
 			Ok(Ok(c)) => c,
 			_ => {
@@ -907,7 +923,7 @@ pub fn run_in_world(rt: &tokio::runtime::Runtime, out: &mut Out, id: &mut Ident,
 		let src = Real::R(Box::new(conv));
 		for bs in args.split(';') {
 			let b = parse_box(bs);
-			let ev = eval_box_ex(rt, &src, &b, w.has_faults());
+			let ev = eval_box_opts(rt, &src, &b, w.has_faults(), !rpn.ends_with('r'));
 			out.count_n("lookups_failing_inside_a_box", ev.n_lookup_errs as u64);
 			let nt = nontrivial_box(&b, &src.params().bbox_pyramid);
 			out.eval(&format!("{prop} X {rpn} {env} {bs}"), nt);
